@@ -7,7 +7,7 @@ function changes the generated definition and these proofs stop checking.
 import NeoModel.Generated.GoFuncs
 import NeoModel.Model.Wire.VarUint
 namespace NeoModel.GoFuncsTie
-open NeoModel NeoModel.Generated
+open NeoModel NeoModel.Generated NeoModel.Wire
 
 /-- `io.getVarIntSize` is the model's `varUintSize` on every value a length can take (≤ 2^32-1; above that the Go
 function keeps answering 5 while the encoding has 9 bytes — lengths never get there: arrays are capped far below). -/
@@ -18,5 +18,58 @@ theorem getVarIntSize_eq (v : Nat) (h : v ≤ 0xFFFFFFFF) :
   split <;> split <;> (try split) <;> (try split) <;> omega
 
 example : GoFuncs.getVarIntSize 65535 = 3 ∧ GoFuncs.getVarIntSize 65536 = 5 ∧ GoFuncs.getVarIntSize 252 = 1 ∧ GoFuncs.getVarIntSize 253 = 3 := by decide
+
+theorem leVal_lt' (b : Bytes) : leVal b < 256 ^ b.length := by
+  induction b with
+  | nil => simp [leVal]
+  | cons x xs ih =>
+    simp only [leVal, List.length_cons, Nat.pow_succ]
+    have := x.toNat_lt
+    omega
+
+/-- The translated `BinReader.ReadVarUint` returns the value the model's `readVarUint` decodes, whenever the model
+decodes (i.e. enough bytes are present): prefix byte fd/fe/ff selects the 2/4/8-byte little-endian field, any
+other first byte is the value; no minimality check. -/
+theorem readVarUint_eq (b : UInt8) (rest : Bytes) (v : Nat) (r : Bytes)
+    (h : Wire.readVarUint (b :: rest) = some (v, r)) :
+    GoFuncs.readVarUint false (b.toNat : Int) (leVal (rest.take 2) : Int) (leVal (rest.take 4) : Int) (leVal (rest.take 8) : Int)
+      = (v : Int) := by
+  have hb := b.toNat_lt
+  have h2 := leVal_lt' (rest.take 2)
+  have h4 := leVal_lt' (rest.take 4)
+  have l2 : (rest.take 2).length ≤ 2 := by simp [List.length_take]; omega
+  have l4 : (rest.take 4).length ≤ 4 := by simp [List.length_take]; omega
+  have p2 : 256 ^ (rest.take 2).length ≤ 256 ^ 2 := Nat.pow_le_pow_right (by omega) l2
+  have p4 : 256 ^ (rest.take 4).length ≤ 256 ^ 4 := Nat.pow_le_pow_right (by omega) l4
+  unfold Wire.readVarUint at h
+  unfold GoFuncs.readVarUint
+  simp only [Bool.false_eq_true, ↓reduceIte]
+  have hbm : ((b.toNat : Int) % 256) = (b.toNat : Int) := by omega
+  simp only [hbm]
+  by_cases c1 : b = 0xfd
+  · subst c1
+    simp [takeN] at h
+    obtain ⟨_, hv, _⟩ := h
+    simp; omega
+  · by_cases c2 : b = 0xfe
+    · subst c2
+      simp [takeN] at h
+      obtain ⟨_, hv, _⟩ := h
+      simp; omega
+    · by_cases c3 : b = 0xff
+      · subst c3
+        simp [takeN] at h
+        obtain ⟨_, hv, _⟩ := h
+        simp; omega
+      · have n1 : b.toNat ≠ 253 := fun e => c1 (UInt8.toNat_inj.mp (by simpa using e))
+        have n2 : b.toNat ≠ 254 := fun e => c2 (UInt8.toNat_inj.mp (by simpa using e))
+        have n3 : b.toNat ≠ 255 := fun e => c3 (UInt8.toNat_inj.mp (by simpa using e))
+        simp [c1, c2, c3] at h
+        obtain ⟨hv, _⟩ := h
+        have : ((b.toNat : Int) = 253) = False := by simp; omega
+        simp only [show ¬ ((b.toNat : Int) = 253) by omega, show ¬ ((b.toNat : Int) = 254) by omega, show ¬ ((b.toNat : Int) = 255) by omega, ↓reduceIte]
+        omega
+
+example : GoFuncs.readVarUint false 0xfd 0x1234 0 0 = 0x1234 ∧ GoFuncs.readVarUint false 7 0 0 0 = 7 ∧ GoFuncs.readVarUint true 7 0 0 0 = 0 := by decide
 
 end NeoModel.GoFuncsTie
